@@ -400,6 +400,11 @@ func genACase(t *rapid.T) *acase {
 				}
 			}
 			c.steps = append(c.steps, s)
+		case k == 18 && rapid.Bool().Draw(t, "muccycle"):
+			// a coherent stretch of MUC history: the room confirms the join in
+			// progress, removes the occupant without being asked (kick), the
+			// application joins again on the same channel object, ... n times
+			c.steps = append(c.steps, step{kind: "muccycle", which: rapid.IntRange(1, 3).Draw(t, "cycles")})
 		case k == 18:
 			c.steps = append(c.steps, step{kind: "leave"})
 		case k == 19:
@@ -592,6 +597,46 @@ func runACase(c *acase, fail func(format string, args ...any)) (res aresult, inc
 			e.sv.Conn.FailWrites(wire.ErrInjected)
 			logf("step %d: from now on every write to the connection fails", i)
 			res.classes = append(res.classes, "A:writes-fail-then-more-input")
+			continue
+		case "muccycle":
+			selfp := func(typ string, n int) string {
+				return fmt.Sprintf(`<presence id="cyc%d-%d"%s from="%s"><x xmlns="http://jabber.org/protocol/muc#user"><item affiliation="member" role="participant"/><status code="110"/>%s</x></presence>`,
+					i, n, typ, roomMe, map[bool]string{true: `<status code="307"/>`, false: ""}[typ != ""])
+			}
+			state := "idle"
+			for n := 0; n < st.which && state == "idle"; n++ {
+				state = e.feedSync(selfp("", 2*n)) // confirms whatever join is in progress
+				e.markAnswered("mj1")
+				e.markAnswered(fmt.Sprintf("mjc%d-%d", i, n-1))
+				if state != "idle" {
+					break
+				}
+				state = e.feedSync(selfp(` type="unavailable"`, 2*n+1)) // unsolicited removal
+				if state != "idle" {
+					break
+				}
+				e.mu.Lock()
+				ch := e.ch
+				e.mu.Unlock()
+				if ch == nil {
+					break
+				}
+				jid := fmt.Sprintf("mjc%d-%d", i, n)
+				e.guardGo("muc rejoin", func() {
+					err := ch.JoinPresence(e.ctx, stanza.Presence{ID: jid})
+					e.note("muc rejoin %s returned err=%v", jid, err)
+				})
+				logf("step %d: muc rejoin (presence %s) on the wire: %v", i, jid, e.waitRequest(jid, stepWait))
+			}
+			logf("step %d: muc membership cycle x%d → %s", i, st.which, state)
+			res.classes = append(res.classes, "A:muc-confirm-kick-rejoin-cycle")
+			switch state {
+			case "done":
+				alive = false
+			case "timeout":
+				alive = false
+				stuck = true
+			}
 			continue
 		case "leave":
 			// the application leaves the room it joined (if it did)
